@@ -27,21 +27,23 @@ func runMemRoles(kind string, ops []string) string {
 		role   string
 		cancel context.CancelFunc // the caller's context
 		lease  context.CancelFunc // the lease's cancel, once acquired
-		held   bool
-		done   chan struct{}
+		held     bool
+		released bool
+		done     chan struct{}
 	}
 	calls := map[string]*call{}
+	// release runs entirely under mu, so that a concurrent acquisition either sees the call as released or has been
+	// counted (and is un-counted here) before the role can pass on
 	release := func(c *call) {
 		mu.Lock()
+		defer mu.Unlock()
 		if c.held {
 			c.held = false
 			active[c.role]--
 		}
-		lease := c.lease
-		mu.Unlock()
-		// the holder stops counting itself BEFORE cancelling: after the cancellation the role may pass on at once
-		if lease != nil {
-			lease()
+		c.released = true
+		if c.lease != nil {
+			c.lease()
 		}
 		c.cancel()
 	}
@@ -59,15 +61,15 @@ func runMemRoles(kind string, ops []string) string {
 					return
 				}
 				mu.Lock()
-				if lctx.Err() == nil {
+				c.lease = lcancel
+				if c.released {
+					lcancel()
+				} else if lctx.Err() == nil {
 					c.held = true
-					c.lease = lcancel
 					active[c.role]++
 					if active[c.role] > maxOverlap {
 						maxOverlap = active[c.role]
 					}
-				} else {
-					c.lease = lcancel
 				}
 				mu.Unlock()
 				atomic.AddInt64(&acquired, 1)
@@ -90,12 +92,7 @@ func runMemRoles(kind string, ops []string) string {
 				release(c)
 			default:
 				pending++
-				mu.Lock()
-				held := c.held
-				mu.Unlock()
-				if held {
-					release(c)
-				}
+				release(c)
 			}
 		}
 		if pending == 0 {
